@@ -588,7 +588,18 @@ theorem closed_run {P : Bool → H11M.St → Prop} (hC : Closed P) (cfg : Cfg) (
     and set at `EndOfMessage`; `HTTPStream.app_send` hands the validated headers of `http.response.start` to the protocol
     as they are (so h11 sees the application's own `connection: close`) -/
 theorem close_sites_guard : Extracted.Guards.h11RequestResetsComplete = true ∧ Extracted.Guards.h11EomSetsComplete = true ∧
-    Extracted.Guards.httpStartHeadersVerbatim = true := by decide
+    Extracted.Guards.httpStartHeadersVerbatim = true ∧ Extracted.Guards.h11CloseOnFinalOnly = true := by decide
+
+/-- **the server's own `connection: close` goes on final response heads only**: an interim head (status below 200: the
+    101 of a websocket accept, whatever `keep_alive_requests` is) is the stream's headers followed by the configured ones
+    and nothing else, so the upgrade that is the last request a connection may serve is still answered by the faithful
+    rendering of the accept (placement of the append extracted: `close_sites_guard`) -/
+theorem interim_head_never_announces_close (status : Nat) (app srv : Headers) (kar kmax : Nat) (hs : status < 200) :
+    Proto.Heads.h11Response status app srv kar kmax = Proto.Heads.H11Head.informational status (app ++ srv) := by
+  have hfin : Extracted.Guards.h11FinalStatusCmp.eval status 200 = false := by
+    simp [Extracted.Guards.h11FinalStatusCmp, Extracted.Guards.Cmp.eval]; omega
+  unfold Proto.Heads.h11Response
+  simp [hfin]
 
 /-- a new request starts incomplete: whatever the flag was (the previous request of a reused connection left it set) -/
 theorem request_resets_complete (cfg : Cfg) (st st' : St) (o0 outs : List Out) (r : ReqEv)
